@@ -240,7 +240,7 @@ CLAIMED = {
              "the compiler (constructors replaced by recorders); and second-use-in-one-process lemmas that run the real code twice: driver payloads "
              "for every ordered accelerator pair, CascadeBuilder.build_cascades twice, the weight and scale encoding caches (a request that differs "
              "in one codec input or in bias values / IFM scale / OFM scale is encoded afresh; an identical one is served from the cache), lookup-table "
-             "equivalence ids (equal iff equal contents, symbolic entries), address ranges of a strided view analysed after an identical dense one. Round 8 additions: module-level generator objects are intercepted as well; the operator-code table is the same for every iteration order of the set it is built from (symbolic permutation); the same allocation twice in one process.",
+             "equivalence ids (equal iff equal contents, symbolic entries), address ranges of a strided view analysed after an identical dense one. Round 8 additions: module-level generator objects are intercepted as well; the operator-code table is the same for every iteration order of the set it is built from (symbolic permutation); the same allocation twice in one process. Round 11 addition: debug_db_twice - the real DebugDatabase filled for network A, cleaned by clean_db(), filled for B: B's four tables equal those of B alone (ids restart at 0).",
         note="Partial: byte identity of written models and summaries, PYTHONHASHSEED-dependent iteration orders, DebugDatabase / TensorAddressMap "
              "contents across compilations are outside. Trusted: z3, symx proxies; readers, compiler driver and writers are stubs in the entry-point lemma.",
         technique="dynamic symbolic execution of the real Python functions over z3 proxies (symx), bounded; symbolic generator pre-state; run-twice lemmas; counterexample replay",
